@@ -32,6 +32,9 @@ type c01Net struct {
 
 // publish puts a message into the pool and into every other node's inbox
 func (n *c01Net) publish(from *c02Harness, mi msgInfo) {
+	if from != nil { // the receiving nodes see it as coming from the peer that is the origin
+		mi.PeerID = p2p.ID(fmt.Sprintf("p%d", from.me+1))
+	}
 	n.pool = append(n.pool, mi)
 	for _, h := range n.nodes {
 		if h != from {
@@ -42,7 +45,8 @@ func (n *c01Net) publish(from *c02Harness, mi msgInfo) {
 
 // gossip sends a proposal and its parts to a peer only once the peer is in that round, and
 // nothing of a later height
-func c01Usable(mi msgInfo, height int64, round int32) bool {
+func c01Usable(mi msgInfo, h *c02Harness) bool {
+	height, round := h.cs.Height, h.cs.Round
 	mh := c01Height(mi)
 	if mh != height {
 		return mh < height
@@ -51,7 +55,32 @@ func c01Usable(mi msgInfo, height int64, round int32) bool {
 	case *ProposalMessage:
 		return m.Proposal.Round <= round
 	case *BlockPartMessage:
-		return m.Round <= round
+		if m.Round <= round {
+			return true
+		}
+		// a peer is also sent the parts of the set it is waiting for (NewValidBlock / commit
+		// catch-up), whatever round they were proposed in
+		pbp := h.cs.ProposalBlockParts
+		return pbp != nil && !pbp.IsComplete() && m.Part.Proof.Verify(pbp.Hash(), m.Part.Bytes) == nil
+	case *VoteMessage:
+		// the reactor sends a peer the votes of the rounds the peer tracks (up to its round + 1),
+		// of its proposal's POL round, and the precommits of a commit it is behind on
+		if m.Vote.Round <= round+1 {
+			return true
+		}
+		if h.cs.Proposal != nil && m.Vote.Round == h.cs.Proposal.POLRound {
+			return true
+		}
+		if m.Vote.Type == tmproto.PrecommitType && h.net != nil {
+			for _, o := range h.net.nodes {
+				if o != h && o.cs.Height > height {
+					if sc := o.cs.blockStore.LoadSeenCommit(height); sc != nil && sc.Round == m.Vote.Round {
+						return true
+					}
+				}
+			}
+		}
+		return false
 	}
 	return true
 }
@@ -87,7 +116,7 @@ func (n *c01Net) totalSteps() int {
 
 // c01Async runs the adversarial asynchronous scheduler until the nodes have handled maxSteps
 // inputs in total.
-func c01Async(r *vg.Rand, net *c01Net, pvs []types.MockPV, maxSteps, lossPct, earlyTimeoutPct, byzPct int) {
+func c01Async(r *vg.Rand, net *c01Net, pvs []types.MockPV, maxSteps, lossPct, earlyTimeoutPct, byzPct int, withholdPrecommits bool) {
 	// a Byzantine helper: any node's tables can be used to build terms
 	byz := func(h *c02Harness) {
 		if len(net.faulty) == 0 {
@@ -191,7 +220,7 @@ func c01Async(r *vg.Rand, net *c01Net, pvs []types.MockPV, maxSteps, lossPct, ea
 		// the first inbox message the node can use now (gossip holds back what is for later heights)
 		usable := -1
 		for i, mi := range net.inbox[h] {
-			if c01Usable(mi, h.cs.Height, h.cs.Round) {
+			if c01Usable(mi, h) {
 				usable = i
 				break
 			}
@@ -242,6 +271,10 @@ func c01Async(r *vg.Rand, net *c01Net, pvs []types.MockPV, maxSteps, lossPct, ea
 				net.kinds["lost"]++
 				continue
 			}
+			if vm, ok := mi.Msg.(*VoteMessage); ok && withholdPrecommits && vm.Vote.Type == tmproto.PrecommitType {
+				net.kinds["withheld-precommit"]++
+				continue
+			}
 			deliver(h, mi)
 			net.kinds["deliver/next"]++
 		}
@@ -284,6 +317,7 @@ func c01Run(r *vg.Rand, k int) (term string, descr string, nontrivial bool, deci
 			shared = h
 		}
 		hh := h
+		h.net = net
 		h.onOwn = func(mi msgInfo) { net.publish(hh, mi) }
 		h.hardCap = 100000
 		net.nodes = append(net.nodes, h)
@@ -292,7 +326,7 @@ func c01Run(r *vg.Rand, k int) (term string, descr string, nontrivial bool, deci
 	lossPct := []int{0, 0, 3, 10, 25}[r.Intn(5)]
 	earlyTimeoutPct := []int{0, 0, 1, 3, 8}[r.Intn(5)] // timeouts firing although messages are in flight
 	byzPct := []int{1, 3, 6}[r.Intn(3)]
-	c01Async(r, net, pvs, maxSteps, lossPct, earlyTimeoutPct, byzPct)
+	c01Async(r, net, pvs, maxSteps, lossPct, earlyTimeoutPct, byzPct, false)
 	// the Coq term: validator set, flags, proposer table, one trace per correct node
 	var vals []string
 	for i, v := range state.Validators.Validators {
@@ -382,6 +416,8 @@ func c03Sync(r *vg.Rand, net *c01Net, pvs []types.MockPV, h0 int64, maxRounds in
 		}
 		return true
 	}
+	resent := map[*c02Harness]map[msgInfo]int{}
+	claims := map[string]bool{}
 	startRound := int32(0)
 	for _, h := range net.nodes {
 		if h.cs.Height == h0 && h.cs.Round > startRound {
@@ -398,9 +434,25 @@ func c03Sync(r *vg.Rand, net *c01Net, pvs []types.MockPV, h0 int64, maxRounds in
 					continue
 				}
 				for h.cs.Height <= h0 && len(h.steps) < 3000 {
+					// gossip by peer state: a node waiting for the parts of a set is sent them again
+					if pbp := h.cs.ProposalBlockParts; pbp != nil && !pbp.IsComplete() {
+						for _, mi := range net.pool {
+							bp, ok := mi.Msg.(*BlockPartMessage)
+							if !ok || bp.Height != h.cs.Height || resent[h][mi] >= 2 ||
+								pbp.GetPart(int(bp.Part.Index)%int(pbp.Total())) != nil ||
+								bp.Part.Proof.Verify(pbp.Hash(), bp.Part.Bytes) != nil {
+								continue
+							}
+							if resent[h] == nil {
+								resent[h] = map[msgInfo]int{}
+							}
+							resent[h][mi]++
+							net.inbox[h] = append(net.inbox[h], mi)
+						}
+					}
 					usable := -1
 					for i, mi := range net.inbox[h] {
-						if c01Usable(mi, h.cs.Height, h.cs.Round) {
+						if c01Usable(mi, h) {
 							usable = i
 							break
 						}
@@ -418,8 +470,76 @@ func c03Sync(r *vg.Rand, net *c01Net, pvs []types.MockPV, h0 int64, maxRounds in
 		if allDecided() {
 			break
 		}
+		// 1b. majority claims (VoteSetMaj23): every correct node tells the others which +2/3
+		// majorities it holds, and the commit it stored for a height a peer is still at; the
+		// peer is then sent again the votes for that block (VoteSetBits exchange)
+		claimed := false
+		for _, o := range net.nodes {
+			for _, h := range net.nodes {
+				if o == h || h.panicked || h.cs.Height > h0 {
+					continue
+				}
+				type claim struct {
+					round int32
+					ty    tmproto.SignedMsgType
+					bid   types.BlockID
+				}
+				var cl []claim
+				if o.cs.Height == h.cs.Height {
+					for rr := int32(0); rr <= o.cs.Round; rr++ {
+						if pv := o.cs.Votes.Prevotes(rr); pv != nil {
+							if b, ok := pv.TwoThirdsMajority(); ok {
+								cl = append(cl, claim{rr, tmproto.PrevoteType, b})
+							}
+						}
+						if pc := o.cs.Votes.Precommits(rr); pc != nil {
+							if b, ok := pc.TwoThirdsMajority(); ok {
+								cl = append(cl, claim{rr, tmproto.PrecommitType, b})
+							}
+						}
+					}
+				} else if o.cs.Height > h.cs.Height {
+					if sc := o.cs.blockStore.LoadSeenCommit(h.cs.Height); sc != nil {
+						cl = append(cl, claim{sc.Round, tmproto.PrecommitType, sc.BlockID})
+					}
+				}
+				for _, c := range cl {
+					key := fmt.Sprintf("%d>%d h%d r%d t%d %X", o.me, h.me, h.cs.Height, c.round, c.ty, c.bid.Hash)
+					if claims[key] {
+						continue
+					}
+					claims[key] = true
+					claimed = true
+					peer := p2p.ID(fmt.Sprintf("p%d", o.me+1))
+					height, hh, cc := h.cs.Height, h, c
+					t := vg.App("IMaj23", vg.Z(height), vg.Z(int64(c.round)), vg.N(uint64(c.ty)), vg.N(uint64(o.me+1)), h.bid(c.bid))
+					h.deliver(t, fmt.Sprintf("maj23-claim{h %d r %d type %d block %s} from %q", height, c.round, c.ty, h.bid(c.bid), peer), func() {
+						hh.cs.mtx.Lock()
+						ht, votes := hh.cs.Height, hh.cs.Votes
+						hh.cs.mtx.Unlock()
+						if ht == height {
+							votes.SetPeerMaj23(cc.round, cc.ty, peer, cc.bid) //nolint:errcheck
+						}
+					})
+					net.kinds["sync/maj23-claim"]++
+					for _, mi := range net.pool { // the votes for that block are sent again
+						if vm, ok := mi.Msg.(*VoteMessage); ok && vm.Vote.Height == height && vm.Vote.Round == c.round &&
+							vm.Vote.Type == c.ty && vm.Vote.BlockID.Equals(c.bid) && resent[h][mi] < 2 {
+							if resent[h] == nil {
+								resent[h] = map[msgInfo]int{}
+							}
+							resent[h][mi]++
+							net.inbox[h] = append(net.inbox[h], mi)
+						}
+					}
+				}
+			}
+		}
+		if claimed {
+			continue
+		}
 		// 2. the faulty validators act (their messages are delivered in the next drain)
-		if len(net.faulty) > 0 && r.Chance(byzPct) {
+		if len(net.faulty) > 0 && net.kinds["sync/byz-vote"] < 60 && r.Chance(byzPct) {
 			h := net.nodes[r.Intn(len(net.nodes))]
 			f := net.faulty[r.Intn(len(net.faulty))]
 			ty := tmproto.PrevoteType
@@ -431,23 +551,37 @@ func c03Sync(r *vg.Rand, net *c01Net, pvs []types.MockPV, h0 int64, maxRounds in
 			net.kinds["sync/byz-vote"]++
 			continue
 		}
-		// 3. nothing in flight: the node furthest behind fires its pending timeout
+		// 3. nothing in flight: among the timeouts that are still relevant (scheduled for the
+		// node's current height and round and not for an earlier step) the one of the node
+		// furthest behind fires
 		var pick *c02Harness
+		var pickTi timeoutInfo
 		for _, h := range net.nodes {
-			if h.panicked || h.cs.Height > h0 || len(h.ticker.scheduled) == 0 {
+			if h.panicked || h.cs.Height > h0 {
+				continue
+			}
+			var best *timeoutInfo
+			for i := range h.ticker.scheduled {
+				ti := h.ticker.scheduled[i]
+				if ti.Height == h.cs.Height && ti.Round == h.cs.Round && ti.Step >= h.cs.Step {
+					if best == nil || ti.Step > best.Step {
+						best = &h.ticker.scheduled[i]
+					}
+				}
+			}
+			if best == nil {
 				continue
 			}
 			if pick == nil || h.cs.Height < pick.cs.Height ||
 				(h.cs.Height == pick.cs.Height && (h.cs.Round < pick.cs.Round ||
 					(h.cs.Round == pick.cs.Round && h.cs.Step < pick.cs.Step))) {
-				pick = h
+				pick, pickTi = h, *best
 			}
 		}
 		if pick == nil {
 			break
 		}
-		ti := pick.ticker.scheduled[len(pick.ticker.scheduled)-1]
-		pick.fire(ti, "sync/timeout")
+		pick.fire(pickTi, "sync/timeout")
 		net.kinds["sync/timeout"]++
 		tooFar := false
 		for _, h := range net.nodes {
@@ -514,13 +648,15 @@ func c03Run(r *vg.Rand) (term, descr string, allDecided bool, kind string) {
 			shared = h
 		}
 		hh := h
+		h.net = net
 		h.onOwn = func(mi msgInfo) { net.publish(hh, mi) }
 		h.hardCap = 100000
 		net.nodes = append(net.nodes, h)
 	}
 	// asynchronous prefix: lossy, early timeouts, split-brain and equivocation
 	prefix := 150 + r.Intn(450)
-	c01Async(r, net, pvs, prefix, []int{0, 10, 25}[r.Intn(3)], []int{3, 8, 15}[r.Intn(3)], 8)
+	withhold := r.Chance(50) // precommits never arrive during the prefix: nodes lock but cannot decide
+	c01Async(r, net, pvs, prefix, []int{0, 10, 25, 40}[r.Intn(4)], []int{3, 8, 15}[r.Intn(3)], 8, withhold)
 	// the synchronous suffix starts here
 	var marks []string
 	h0 := int64(0)
@@ -531,15 +667,14 @@ func c03Run(r *vg.Rand) (term, descr string, allDecided bool, kind string) {
 	}
 	for _, h := range net.nodes {
 		marks = append(marks, vg.Nat(len(h.steps)))
+		h.lockedAtSync = h.cs.LockedBlock != nil
 	}
 	bound := int32(2*nv + 2)
 	// idealised gossip: whatever a correct node holds reaches every other correct node; what was
 	// lost or held back during the asynchronous prefix is sent again
 	for _, h := range net.nodes {
+		// (also what the node was sent before but could not use then: gossip resends by peer state)
 		have := map[msgInfo]bool{}
-		for _, mi := range h.got {
-			have[mi] = true
-		}
 		for _, mi := range net.inbox[h] {
 			have[mi] = true
 		}
@@ -568,12 +703,55 @@ func c03Run(r *vg.Rand) (term, descr string, allDecided bool, kind string) {
 		}
 	}
 	var d strings.Builder
-	fmt.Fprintf(&d, "validators=%d equal powers, faulty=%v skipTimeoutCommit=%v async-prefix=%d inputs, sync from height %d, bound %d rounds;", nv, net.faulty, skip, prefix, h0, bound)
+	locked := 0
+	for _, h := range net.nodes {
+		if h.lockedAtSync {
+			locked++
+		}
+	}
+	fmt.Fprintf(&d, "validators=%d equal powers, faulty=%v skipTimeoutCommit=%v async-prefix=%d inputs (precommits withheld: %v), %d nodes locked at sync, sync from height %d, bound %d rounds;", nv, net.faulty, skip, prefix, withhold, locked, h0, bound)
 	for i, h := range net.nodes {
 		nodes = append(nodes, vg.Tup(vg.Z(int64(h.me)), vg.L(h.steps)))
 		fmt.Fprintf(&d, " node %d: %d inputs (sync from #%s), final %d/%d/%d;", h.me, len(h.steps), marks[i], h.cs.Height, h.cs.Round, h.cs.Step)
+		if h.cs.Height <= h0 && !h.panicked { // diagnostics for a node that did not decide
+			np, nu := 0, 0
+			for _, mi := range net.inbox[h] {
+				if _, ok := mi.Msg.(*BlockPartMessage); ok {
+					np++
+				}
+				if c01Usable(mi, h) {
+					nu++
+				}
+			}
+			pbp := "nil"
+			if h.cs.ProposalBlockParts != nil {
+				pbp = fmt.Sprintf("%v complete=%v", h.cs.ProposalBlockParts.Header(), h.cs.ProposalBlockParts.IsComplete())
+			}
+			fmt.Fprintf(&d, " [stuck: inbox %d msgs, %d parts, %d usable, waiting for parts %s, pool %d", len(net.inbox[h]), np, nu, pbp, len(net.pool))
+			for _, o := range net.nodes {
+				if o.cs.Height > h.cs.Height {
+					if sc := o.cs.blockStore.LoadSeenCommit(h.cs.Height); sc != nil {
+						pcs := h.cs.Votes.Precommits(sc.Round)
+						fmt.Fprintf(&d, "; node %d decided h%d in round %d, my precommits for that round: %v", o.me, h.cs.Height, sc.Round, pcs)
+						break
+					}
+				}
+			}
+			inb := map[string]int{}
+			for _, mi := range net.inbox[h] {
+				switch m := mi.Msg.(type) {
+				case *VoteMessage:
+					inb[fmt.Sprintf("vote t%d h%d r%d", m.Vote.Type, m.Vote.Height, m.Vote.Round)]++
+				case *ProposalMessage:
+					inb[fmt.Sprintf("proposal h%d r%d", m.Proposal.Height, m.Proposal.Round)]++
+				case *BlockPartMessage:
+					inb[fmt.Sprintf("part h%d r%d", m.Height, m.Round)]++
+				}
+			}
+			fmt.Fprintf(&d, "; inbox: %v];", inb)
+		}
 	}
 	term = vg.App("CSync", vg.L(vals), vg.B(skip), vg.Z(1), vg.L(props), vg.L(nodes), vg.L(marks), vg.Z(h0), vg.Z(int64(bound)))
-	kind = fmt.Sprintf("sync/n=%d/faulty=%d/alldecided=%v", nv, len(net.faulty), allDecided)
+	kind = fmt.Sprintf("sync/n=%d/faulty=%d/locked=%d/alldecided=%v", nv, len(net.faulty), locked, allDecided)
 	return term, d.String(), allDecided, kind
 }
